@@ -21,6 +21,7 @@ RULE = ('exhaustive over Table B/D entries of the chosen versions (quick: 6 vers
         'local tables; thorough: all 36 + local); random well-formed id lists (depth<=4, X<=63); undefined '
         'descriptor placements; master/local version selections 0..255; non-trivial = entry nests a sequence '
         'or replication / list contains a replication; distinct by (version, id) / list hash; descriptors in no table (incl. 0 00 000) inside lists, ids given as strings; the same list under two versions in one process; `lookup` and `info -t` output')
+RULE += '; added with rounds 10-12: definitions in force when the definition message has been delivered (template built from the loop body / after the scan was left); -t <root> before lookup / compile; table-group requests preceded by the same request for other tables roots (twins)'
 ASSUMPTIONS = ['the bundled table files are the ground truth (not checked against WMO)',
                'documented fall-back: master table dir else 0; version dir else 33; local <centre>_<sub> else <centre>_0 else none']
 BUDGET = {'quick': 50, 'thorough': 500}
